@@ -5,7 +5,7 @@
      rockredis/t_ttl_l.go        localExpiration (time index, rawExpireAt, ExpireAt, applyExpiration body)
      rockredis/t_ttl.go          TTLChecker.check (scan of the time index up to the scan time), *Ttl
      rockredis/t_kv.go           getRawDBKVValue, prepareKVValueForWrite, resetWithNewKVValue, setKV, KVSetWithOpts (SETNX),
-                                 KVGetSet, MSet, incr, Append, SetRange, DelKeys, Expire, Persist, KVGet, KVExists, KVTtl
+                                 KVGetSet, MSet, incr, Append, SetRange, DelKeysAt/kvDel, Expire, Persist, KVGet, KVExists, KVTtl
      rockredis/t_collections.go  collHeaderMeta, GetCollVersionKey, prepareCollKeyForWrite, collExpire, collPersist, collKeyExists
      rockredis/t_hash.go         hSetField, HMset, HDel, HIncrBy, HClear/hDeleteAll, HLen, HGetAll
      rockredis/t_set.go          SAdd, SRem, SPop/sMembersN, SClear/sDelete, SCard, SMembers
@@ -272,10 +272,10 @@ Definition do_setrange p s ts k off v : store * reply :=
   end.
 Fixpoint dedup (l : list bytes) : list bytes :=
   match l with [] => [] | x :: r => x :: filter (fun y => negb (bytes_eqb x y)) (dedup r) end.
-(* DelKeys: counts the keys physically stored (no expiry decision, no timestamp) *)
-Definition do_del (s : store) (ks : list bytes) : store * reply :=
+(* DelKeysAt / kvDel: every listed key is deleted; the reply counts those that were live at ts *)
+Definition do_del (p : policy) (s : store) (ts : Z) (ks : list bytes) : store * reply :=
   let ks' := dedup ks in
-  let n := length (filter (fun k => match kv_get s k with Some _ => true | None => false end) ks') in
+  let n := length (filter (fun k => match kv_raw p s ts k with (_, Some _, false) => true | _ => false end) ks') in
   (fold_left kv_del ks' s, RInt (Z.of_nat n)).
 
 (* ---------- collections: shared header logic ---------- *)
@@ -526,7 +526,7 @@ Definition step (p : policy) (s : store) (ts : Z) (c : cmd) : store * reply :=
   | CIncrBy k d => do_incrby p s ts k d
   | CAppend k v => do_append p s ts k v
   | CSetRange k off v => do_setrange p s ts k off v
-  | CDel ks => do_del s ks
+  | CDel ks => do_del p s ts ks
   | CExpire t k dur => do_expire p s ts t k dur
   | CPersist t k => do_persist p s ts t k
   | CClear t k => match t with TK => (s, RErr) | _ => coll_clear p s ts t k end
